@@ -212,6 +212,7 @@ type vfSim struct {
 	scriptNext map[string]map[string][]bool // peer -> bundle ID -> outcomes, for a peer that is about to be added
 
 	inspectAll bool // the node inspects all administrative records, not only those addressed to it
+	name       string // the node's name, "dtn://node/" unless the case runs two nodes
 }
 
 const vfNodeName = "dtn://node/"
@@ -236,7 +237,13 @@ func vfNewSim(c *vk.Ctx, conf RoutingConf) *vfSim {
 // vfNewSimInspect: as vfNewSim, with the node's "inspect all bundles" option.
 func vfNewSimInspect(c *vk.Ctx, conf RoutingConf, inspectAll bool) *vfSim {
 	vfRegisterBlocks()
-	s := &vfSim{c: c, dir: vfScratch(), nodeID: bpv7.MustNewEndpointID(vfNodeName), conf: conf, peers: map[string]*vfPeer{}, inspectAll: inspectAll}
+	return vfNewSimNamed(c, conf, inspectAll, vfNodeName)
+}
+
+// vfNewSimNamed: a node with another name than "dtn://node/" (cases with two real nodes).
+func vfNewSimNamed(c *vk.Ctx, conf RoutingConf, inspectAll bool, name string) *vfSim {
+	vfRegisterBlocks()
+	s := &vfSim{c: c, dir: vfScratch(), nodeID: bpv7.MustNewEndpointID(name), conf: conf, peers: map[string]*vfPeer{}, inspectAll: inspectAll, name: name}
 	s.boot()
 	return s
 }
@@ -253,9 +260,9 @@ func (s *vfSim) boot() {
 	}
 	s.core = core
 	s.gen++
-	s.marker = vfNewAgent(bpv7.MustNewEndpointID(vfNodeName + "vfmarker"))
+	s.marker = vfNewAgent(bpv7.MustNewEndpointID(s.name + "vfmarker"))
 	core.RegisterApplicationAgent(s.marker)
-	s.app = vfNewAgent(bpv7.MustNewEndpointID(vfNodeName+"app"), bpv7.MustNewEndpointID(vfNodeName+"app2"))
+	s.app = vfNewAgent(bpv7.MustNewEndpointID(s.name+"app"), bpv7.MustNewEndpointID(s.name+"app2"))
 	core.RegisterApplicationAgent(s.app)
 	s.inlet = &vfPeer{sim: s, name: "inlet", eid: bpv7.MustNewEndpointID("dtn://vfinlet/"), addr: fmt.Sprintf("vf://inlet/%d", s.gen), ch: make(chan cla.ConvergenceStatus)}
 	// the inlet is registered as a receiver-like adapter: it must not be chosen as a sender
@@ -337,7 +344,7 @@ func (s *vfSim) nSends() int {
 func (s *vfSim) barrier(via *vfPeer) {
 	s.markerN++
 	n := s.markerN
-	mb, err := bpv7.Builder().CRC(bpv7.CRC32).Source("dtn://vfharness/m").Destination(vfNodeName + "vfmarker").
+	mb, err := bpv7.Builder().CRC(bpv7.CRC32).Source("dtn://vfharness/m").Destination(s.name + "vfmarker").
 		CreationTimestampNow().Lifetime("1h").BundleCtrlFlags(bpv7.MustNotFragmented).PayloadBlock([]byte(fmt.Sprintf("marker-%d", n))).Build()
 	if err != nil {
 		s.failf("sim.harness", "marker: %v", err)
